@@ -315,7 +315,7 @@ LatThorough ==
             <<M2(1, 1, 0, 1), M2(1, 2, -1, 0), M2(-2, 1, 1, 2), M2(0, 0, 0, 0)>> >>,
    Q |-> << <<M1(2)>>,                     <<D2(9, 1), M2(2, 1, 1, 2)>> >>,
    X |-> << <<<<0>>, <<-2>>>>,             <<<<3, 1>>>> >>,
-   P |-> << <<M1(1), M1(2)>>,              <<D2(1, 1), M2(5, 3, 3, 2), D2(9, 4)>> >>,
+   P |-> << <<M1(1), M1(2)>>,              <<M2(5, 3, 3, 2), D2(9, 4)>> >>,
    H |-> << << <<M1(1), M1(-1), M1(0)>>,   <<C2(2, 0), C2(-1, 1)>> >>,
             << <<R2(0, 1), R2(1, 1), R2(0, 0)>>,
                <<M2(1, 1, 1, 1), M2(0, 1, 1, 0), M2(2, 0, 1, -2)>> >> >>,
